@@ -114,15 +114,19 @@ abbrev Str := List Nat   -- code points
 
 /-- payload of a Date10 / DateTime10 / Time object (years 1..9999): `t` = the local wall-clock
 reading of `_dt` in seconds since 0001-01-01T00:00:00, `tz` = the explicit timezone offset in minutes
-(none = no timezone).  xs:time values sit on 2000-01-01. -/
+(none = no timezone); `t` is negative before the common era.  xs:time values sit on 2000-01-01. -/
 structure DT where
   t : Int
   tz : Option Int
   deriving DecidableEq, Repr, Inhabited
 
-/-- `_year`: the proleptic-Gregorian year of the local date — the calendar of C11's specification
-(EPV/Spec/Timeline.lean `yearOfDay`, day 0 = 0001-01-01), imported read-only -/
-def DT.year (d : DT) : Int := EPV.Timeline.yearOfDay (d.t / 86400)
+/-- `_year`: the library's internal year number of the local date — the proleptic-Gregorian
+(astronomical) year of C11's calendar (EPV/Spec/Timeline.lean `yearOfDay`, day 0 = 0001-01-01, imported
+read-only) for 1 CE and later, and one less for 1 BCE and earlier: the internal numbering has no year 0
+(xs:dateTime('-0001-…') of XSD 1.0 and xs:dateTime('0000-…') of XSD 1.1 both have `_year = -1`) -/
+def DT.year (d : DT) : Int :=
+  let a := EPV.Timeline.yearOfDay (d.t / 86400)
+  if a ≤ 0 then a - 1 else a
 
 /-- `Timezone.__init__` (datetime.py:49-55) accepts offsets between -14:00 and +14:00 only -/
 def DT.tzOK (d : DT) : Bool :=
